@@ -240,7 +240,22 @@ def gp_steps():
         ("elitism|novelty", lambda: ParallelStep([ElitismStep(), NoveltyStep()], weights=[1, 1])),
         ("tournament;crossover(1);mutation(1)", lambda: SequenceStep(TournamentSelection(2), GenericCrossoverStep(1), GenericMutationStep(1))),
         ("novelty", lambda: NoveltyStep()),
+        # the last step evaluates (through the bare evaluator) before the tracker sees the generation
+        ("tournament;mutation(1);elitism", lambda: SequenceStep(TournamentSelection(2), GenericMutationStep(1), ElitismStep())),
     ]
+
+
+def track_handed(tracker):
+    """records the uid of every individual handed to tracker.evaluate (whether or not it had a fitness already)"""
+    handed: set = set()
+    orig = tracker.evaluate
+
+    def evaluate(individuals):
+        individuals = list(individuals)
+        handed.update(uid(i) for i in individuals)
+        return orig(individuals)
+    tracker.evaluate = evaluate
+    return handed
 
 
 def configurations(h: Harness):
@@ -270,6 +285,7 @@ def check_searches(h: Harness):
                 problem = SingleObjectiveProblem(logging_ff(log, 0, lambda k: k), minimize=minimize)
                 tracker = SingleObjectiveProgressTracker(problem, SequentialEvaluator(), recorders=[rec])
             budget = EvaluationBudget(n)
+            handed = track_handed(tracker)
             random = NativeRandomSource(rng.randrange(10**6))
             if algo == "RandomSearch":
                 rep = ScriptRep(keys)
@@ -320,9 +336,10 @@ def check_searches(h: Harness):
                     k = keys[u % len(keys)]
                     agg = -k if kind == "single-min" else (k - 1 if kind == "multi" else k)
                     if agg > rv:
-                        h.fail(site, "evaluated-individual-better-than-returned",
+                        h.fail(site, "individual-handed-to-the-tracker-better-than-returned" if u in handed else "evaluated-individual-better-than-returned",
                                f"{desc}: individual uid {u} was evaluated with aggregate {agg} but search() returned uid {rid} with aggregate {as_int(rv)}"
-                               f" (uid {u} {'was' if u in registered else 'was never'} handed to the tracker)", {"algo": algo, "kind": kind, "n": n, "keys": keys})
+                               f" (uid {u} {'was' if u in handed else 'was never'} handed to the tracker, {'was' if u in registered else 'was never'} announced to recorders)",
+                               {"algo": algo, "kind": kind, "n": n, "keys": keys})
                         break
 
 
@@ -337,14 +354,18 @@ def check_gp_in_step_evaluation(h: Harness):
         problem = SingleObjectiveProblem(logging_ff(log, 0, lambda k: k))
         tracker = SingleObjectiveProgressTracker(problem, SequentialEvaluator(), recorders=[rec])
         pop, n = rng.randint(2, 5), rng.randint(4, 16)
+        handed = track_handed(tracker)
+        stepname, step = rng.choice([("SequenceStep(GenericMutationStep(1), TournamentSelection(2))", lambda: SequenceStep(GenericMutationStep(1), TournamentSelection(2))),
+                                     ("SequenceStep(TournamentSelection(2), GenericMutationStep(1), ElitismStep())",
+                                      lambda: SequenceStep(TournamentSelection(2), GenericMutationStep(1), ElitismStep()))])
         gp = GeneticProgramming(problem, EvaluationBudget(n), ScriptRep(keys), NativeRandomSource(rng.randrange(10**6)), tracker,
-                                population_size=pop, step=SequenceStep(GenericMutationStep(1), TournamentSelection(2)))
+                                population_size=pop, step=step())
         try:
             ret = gp.search()
         except Exception as e:  # noqa: BLE001
             h.notes.append(f"C12 GP mutation;tournament run raised {type(e).__name__}: {e}")
             continue
-        h.count("search:GP:mutation;tournament")
+        h.count("search:GP:in-step:" + ("elitism-last" if "Elitism" in stepname else "mutation;tournament"))
         rv = as_int(ret.get_fitness(problem).maximizing_aggregate)
         registered = {r["uid"] for r in rec.rows}
         evaluated = [(u, keys[u % len(keys)]) for (_, u) in log.read()]
@@ -352,11 +373,14 @@ def check_gp_in_step_evaluation(h: Harness):
         better = [(u, v) for (u, v) in evaluated if v > rv]
         if better:
             u, v = better[0]
-            h.fail(site, "evaluated-individual-better-than-returned",
-                   f"GeneticProgramming(EvaluationBudget({n}), population_size={pop}, step=SequenceStep(GenericMutationStep(1), TournamentSelection(2))): "
+            tracked = [(u, v) for (u, v) in better if u in handed]
+            if tracked:
+                u, v = tracked[0]
+            h.fail(site, "individual-handed-to-the-tracker-better-than-returned" if tracked else "evaluated-individual-better-than-returned",
+                   f"GeneticProgramming(EvaluationBudget({n}), population_size={pop}, step={stepname}): "
                    f"individual uid {u} was evaluated (counted) with fitness {v} but search() returned uid {uid(ret)} with fitness {rv}; "
-                   f"uid {u} {'was' if u in registered else 'was never'} handed to the tracker ({len(evaluated)} evaluated, {len(registered)} tracked)",
-                   {"keys": keys, "pop": pop, "n": n})
+                   f"uid {u} {'was' if u in handed else 'was never'} handed to the tracker ({len(evaluated)} evaluated, {len(handed)} handed to the tracker, "
+                   f"{len(registered)} announced)", {"keys": keys, "pop": pop, "n": n, "step": stepname})
 
 
 def run(h: Harness):
